@@ -106,6 +106,28 @@ pub fn inputs(seed: u64, n: u64) -> Vec<(String, String)> {
             let len = rng.gen_range(1..14);
             out.push(("random-tokens".into(), random_tokens(&mut rng, len)));
         }
+        // character-level edits: delete / duplicate / replace one character of a well-formed program
+        let chars: Vec<char> = text.chars().collect();
+        for _ in 0..4 {
+            if chars.is_empty() {
+                break;
+            }
+            let mut c2 = chars.clone();
+            let i = rng.gen_range(0..c2.len());
+            match rng.gen_range(0..3) {
+                0 => {
+                    c2.remove(i);
+                }
+                1 => {
+                    let x = c2[i];
+                    c2.insert(i, x);
+                }
+                _ => {
+                    c2[i] = ['.', '"', '\\', '(', ')', '{', '}', '[', ']', '=', '!', '-', '0', ' ', 'é', '^', '&', '|', ';', ','][rng.gen_range(0..20)];
+                }
+            }
+            out.push(("char-edit".into(), c2.into_iter().collect()));
+        }
         // noise: random code points, control characters, surrogates-adjacent, mixed with program text
         for _ in 0..3 {
             let len = rng.gen_range(1..30);
